@@ -22,13 +22,14 @@ type SpecEnv struct {
 	st    *State
 	old   *State
 	depth int
+	cells *State // state in which local variables held in memory are read (never switched by old())
 	topLevel bool // names are those of the function under verification (not a callee's contract)
 	rangeKey string     // ghost visited-set of the map iteration of the loop being specified
 	rangeMap types.Type
 }
 
 func (env *SpecEnv) child() *SpecEnv {
-	n := &SpecEnv{e: env.e, pkg: env.pkg, vars: map[string]Val{}, st: env.st, old: env.old, depth: env.depth + 1, rangeKey: env.rangeKey, rangeMap: env.rangeMap, topLevel: env.topLevel}
+	n := &SpecEnv{e: env.e, pkg: env.pkg, vars: map[string]Val{}, st: env.st, old: env.old, depth: env.depth + 1, rangeKey: env.rangeKey, rangeMap: env.rangeMap, topLevel: env.topLevel, cells: env.cells}
 	for k, v := range env.vars {
 		n.vars[k] = v
 	}
@@ -51,12 +52,17 @@ func (e *Exec) baseEnv(fr *Frame, st *State) *SpecEnv {
 			env.vars["&"+fv.Name()] = v
 		}
 	}
-	if os.Getenv("GOVC_DBG") != "" {
-		fmt.Fprintln(os.Stderr, "baseEnv", fr.fn.Name(), len(fr.debugVals))
-	}
-	for k, v := range fr.debugVals {
-		if _, clash := env.vars[k]; !clash {
-			env.vars[k] = v
+	// named locals: the latest binding recorded in a block that dominates the current point
+	// (a binding made on another path says nothing here)
+	for _, db := range fr.debugSrc {
+		if fr.cur != nil && db.blk != fr.cur && !db.blk.Dominates(fr.cur) {
+			continue
+		}
+		if v, ok := fr.vals[db.v]; ok {
+			if _, isParam := env.vars[db.name]; isParam {
+				continue // parameter names denote the argument values (loop invariants see the loop variable)
+			}
+			env.vars[db.name] = v
 		}
 	}
 	// named local variables that live in memory (address taken): aggregates are visible as a
@@ -70,6 +76,9 @@ func (e *Exec) baseEnv(fr *Frame, st *State) *SpecEnv {
 			v, done := fr.vals[al]
 			if !done {
 				continue
+			}
+			if fr.cur != nil && al.Block() != fr.cur && !al.Block().Dominates(fr.cur) {
+				continue // not allocated on the path to the current point
 			}
 			if _, clash := env.vars[al.Comment]; clash {
 				continue
@@ -326,11 +335,15 @@ func (env *SpecEnv) evalIdent(name string) (Val, error) {
 		return v, nil
 	}
 	if v, ok := env.vars["&"+name]; ok { // captured variable: the closure holds its address
+		cst := env.st
+		if env.cells != nil {
+			cst = env.cells // old(x.f) means: the entry value of field f of what x denotes NOW
+		}
 		if v.A != nil {
-			return e.loadAddr(env.st, v.A), nil
+			return e.loadAddr(cst, v.A), nil
 		}
 		pt := v.T.Underlying().(*types.Pointer)
-		r := e.loadAt(env.st, v.S, pt.Elem())
+		r := e.loadAt(cst, v.S, pt.Elem())
 		r.NN = true
 		return r, nil
 	}
@@ -636,6 +649,12 @@ func (env *SpecEnv) evalBin(x *SExpr) (Val, error) {
 			r.Rsh(x1, uint(y1.Int64()))
 		case "/":
 			r.Quo(x1, y1)
+		case "|":
+			r.Or(x1, y1)
+		case "&":
+			r.And(x1, y1)
+		case "^":
+			r.Xor(x1, y1)
 		default:
 			c := x1.Cmp(y1)
 			res := false
@@ -701,6 +720,9 @@ func (env *SpecEnv) evalCall(x *SExpr) (Val, error) {
 		switch callee.Tok {
 		case "old":
 			c := env.child()
+			if c.cells == nil {
+				c.cells = env.st
+			}
 			c.st = env.old
 			// inside old(), parameter names denote their values on entry even if the function
 			// reassigns them (the loop variable p in `p = p[j+1:]` vs. the argument p)
@@ -1445,7 +1467,13 @@ func selectPatterns(t, q string) []string {
 		if len(parts) != 2 {
 			continue
 		}
-		if strings.Contains(parts[1], q) && !strings.Contains(parts[0], q) && !strings.Contains(term, "(forall") && !strings.Contains(term, "(exists") && !seen[term] {
+		clean := true
+		for _, bad := range []string{"(ite ", "(and ", "(or ", "(not ", "(=> ", "(= ", "(forall", "(exists", "(bvsle ", "(bvslt ", "(bvule ", "(bvult ", "(<= ", "(< ", "(> ", "(>= "} {
+			if strings.Contains(term, bad) {
+				clean = false
+			}
+		}
+		if clean && strings.Contains(parts[1], q) && !strings.Contains(parts[0], q) && !seen[term] {
 			seen[term] = true
 			out = append(out, term)
 		}
